@@ -52,12 +52,14 @@ const (
 )
 
 type c03Gx struct {
-	kind int
-	op   js.TokenType
-	tok  c03Jtok
-	kids []*c03Gx
-	raw  []c03Jtok
-	rawS string
+	kind    int
+	op      js.TokenType
+	tok     c03Jtok
+	kids    []*c03Gx
+	raw     []c03Jtok
+	rawMode []int8 // line-break modes of the raw tokens (c03prog.go)
+	rawS    string
+	trail   bool // a call spelled with a trailing comma
 }
 
 // String() of js/ast.go, restated
@@ -120,9 +122,27 @@ func c03PrefixResult(op js.TokenType) js.TokenType {
 }
 
 type c03ExprGen struct {
-	r        *Rng
-	trailing bool                                  // allow a trailing comma in argument lists
-	raws     func(g *c03ExprGen, depth int) *c03Gx // optional: primary expressions outside the operator fragment
+	r             *Rng
+	trailing      bool                                           // allow a trailing comma in argument lists
+	strictTargets bool                                           // assignment / update / delete operands are valid targets (no early errors)
+	raws          func(g *c03ExprGen, depth int) *c03Gx          // optional: primary expressions outside the operator fragment
+	rawsAssign    func(g *c03ExprGen, depth int, in bool) *c03Gx // optional: arrow functions, yield
+	rawsUnary     func(g *c03ExprGen, depth int, in bool) *c03Gx // optional: await, optional chains
+}
+
+// target: IdentifierReference or a member expression (a valid assignment target)
+func (g *c03ExprGen) target(depth int, in bool) *c03Gx {
+	r := g.r
+	e := c03Leaf(c03GenIdents[r.Intn(len(c03GenIdents))])
+	for n := r.Intn(3); n > 0 && depth > 0; n-- {
+		depth--
+		if r.Bool() {
+			e = &c03Gx{kind: c03GxDot, kids: []*c03Gx{e}, tok: c03Jtok{data: []byte([]string{"p", "q", "x1"}[r.Intn(3)])}}
+		} else {
+			e = &c03Gx{kind: c03GxIndex, kids: []*c03Gx{e, g.gen(c03NtExpression, depth, true)}}
+		}
+	}
+	return e
 }
 
 func c03Leaf(t c03Jtok) *c03Gx { return &c03Gx{kind: c03GxLeaf, tok: t} }
@@ -161,8 +181,16 @@ func (g *c03ExprGen) gen(nt, depth int, in bool) *c03Gx {
 		}
 		return e
 	case c03NtAssignment:
+		if g.rawsAssign != nil && depth > 0 && r.Chance(1, 8) {
+			if e := g.rawsAssign(g, depth-1, in); e != nil {
+				return e
+			}
+		}
 		if down || r.Chance(1, 2) {
 			return g.gen(c03NtConditional, depth, in)
+		}
+		if g.strictTargets {
+			return g.bin(g.pick(c03AssignOps), g.target(depth-1, in), g.gen(c03NtAssignment, depth-1, in))
 		}
 		return g.bin(g.pick(c03AssignOps), g.gen(c03NtLHS, depth-1, in), g.gen(c03NtAssignment, depth-1, in))
 	case c03NtConditional:
@@ -213,13 +241,28 @@ func (g *c03ExprGen) gen(nt, depth int, in bool) *c03Gx {
 		}
 		return g.bin(js.ExpToken, g.gen(c03NtUpdate, depth-1, in), g.gen(c03NtExponent, depth-1, in))
 	case c03NtUnary:
+		if g.rawsUnary != nil && depth > 0 && r.Chance(1, 8) {
+			if e := g.rawsUnary(g, depth-1, in); e != nil {
+				return e
+			}
+		}
 		if down || r.Chance(1, 2) {
 			return g.gen(c03NtUpdate, depth, in)
 		}
-		return &c03Gx{kind: c03GxPrefix, op: g.pick(c03UnaryOps), kids: []*c03Gx{g.gen(c03NtUnary, depth-1, in)}}
+		uop := g.pick(c03UnaryOps)
+		if g.strictTargets && uop == js.DeleteToken {
+			return &c03Gx{kind: c03GxPrefix, op: uop, kids: []*c03Gx{&c03Gx{kind: c03GxDot, kids: []*c03Gx{g.target(depth-1, in)}, tok: c03Jtok{data: []byte("p")}}}}
+		}
+		return &c03Gx{kind: c03GxPrefix, op: uop, kids: []*c03Gx{g.gen(c03NtUnary, depth-1, in)}}
 	case c03NtUpdate:
 		if down || r.Chance(1, 2) {
 			return g.gen(c03NtLHS, depth, in)
+		}
+		if g.strictTargets {
+			if r.Bool() {
+				return &c03Gx{kind: c03GxPostfix, op: g.pick([]js.TokenType{js.IncrToken, js.DecrToken}), kids: []*c03Gx{g.target(depth-1, in)}}
+			}
+			return &c03Gx{kind: c03GxPrefix, op: g.pick([]js.TokenType{js.IncrToken, js.DecrToken}), kids: []*c03Gx{g.target(depth-1, in)}}
 		}
 		if r.Bool() {
 			return &c03Gx{kind: c03GxPostfix, op: g.pick([]js.TokenType{js.IncrToken, js.DecrToken}), kids: []*c03Gx{g.gen(c03NtLHS, depth-1, in)}}
@@ -229,7 +272,11 @@ func (g *c03ExprGen) gen(nt, depth int, in bool) *c03Gx {
 		e := g.gen(c03NtPrimary, depth, in)
 		for depth > 0 && r.Chance(1, 3) {
 			depth--
-			switch r.Intn(3) {
+			k := r.Intn(3)
+			if k == 0 && e.kind == c03GxLeaf && js.IsNumeric(e.tok.ty) {
+				k = 1
+			}
+			switch k {
 			case 0:
 				names := []string{"p", "q", "typeof", "in", "delete", "null", "x1"}
 				e = &c03Gx{kind: c03GxDot, kids: []*c03Gx{e}, tok: c03Jtok{data: []byte(names[r.Intn(len(names))])}}
@@ -299,6 +346,7 @@ func (g *c03ExprGen) toks(e *c03Gx) []c03Jtok {
 		}
 		if g.trailing && len(e.kids) > 1 && g.r.Chance(1, 6) {
 			out = append(out, c03TkComma)
+			e.trail = true
 		}
 		return append(out, c03TkRP)
 	case c03GxComma:
@@ -419,6 +467,8 @@ func c03Oracle(r *Rng, tier string, rep *Report) {
 	c03Fixed(rep)
 	c03Expressions(r, tier, rep)
 	c03Programs(r, tier, rep)
+	c03WholeLanguage(r, tier, rep)
+	c03ProgramRejections(r, tier, rep)
 	c03Forbidden(r, tier, rep)
 }
 
@@ -458,6 +508,9 @@ func c03MarkPostfix(e *c03Gx, g *c03ExprGen, pos int, nolt []bool) int {
 			}
 			p = c03MarkPostfix(a, g, p, nolt)
 		}
+		if e.trail {
+			p++
+		}
 		return p + 1
 	case c03GxComma:
 		p := pos
@@ -474,22 +527,31 @@ func c03MarkPostfix(e *c03Gx, g *c03ExprGen, pos int, nolt []bool) int {
 
 // c03AcceptCheck: src is a grammatical program whose tree must have the String() form want.
 func c03AcceptCheck(rep *Report, src []byte, o int, want string, prefixUpdExp bool, bucket string, nontrivial bool) {
+	c03AcceptCheckKey(rep, "", src, o, want, prefixUpdExp, bucket, nontrivial)
+}
+
+// c03AcceptCheckKey: with a fixed violation key (for the minimal instance of a known defect)
+func c03AcceptCheckKey(rep *Report, fixedKey string, src []byte, o int, want string, prefixUpdExp bool, bucket string, nontrivial bool) {
 	ast, err, pan := c03ParseJS(src, o)
 	switch {
 	case pan != nil:
 		rep.Violate("c03-panic:"+string(src), fmt.Sprintf("js.Parse panics on %q: %v", src, pan), map[string]interface{}{"src": string(src), "opts": o})
 	case err != nil:
-		if prefixUpdExp {
+		if fixedKey != "" {
+			rep.Violate(fixedKey, fmt.Sprintf("grammatical program rejected: %q: %v", src, c03FirstLine(err)), map[string]interface{}{"src": string(src), "opts": o, "expected": want})
+		} else if prefixUpdExp {
 			rep.Violate("c03-accept:prefix-update-exp-base", fmt.Sprintf("grammatical program rejected: %q (UpdateExpression `++x`/`--x` as the base of **): %v", src, c03FirstLine(err)), map[string]interface{}{"src": string(src), "opts": o, "expected": want})
 		} else {
 			rep.Violate("c03-accept:"+string(src), fmt.Sprintf("grammatical program rejected: %q: %v", src, c03FirstLine(err)), map[string]interface{}{"src": string(src), "opts": o, "expected": want})
 		}
 	default:
 		if got := c03AstString(ast); got != want {
-			if c03DropEmptyStmts(ast) == want {
+			if c03NoEmpty(got) == c03NoEmpty(want) {
 				// `a <newline> ; b`: the grammar reads the ';' as the end of the first statement; the parser does
 				// not take a ';' that follows a line break and then parses it as an EmptyStatement
-				rep.Violate("c03-tree:empty-stmt-for-semicolon-after-newline", fmt.Sprintf("extra EmptyStmt for a ';' that follows a line break: %q: got %s want %s", src, got, want), map[string]interface{}{"src": string(src), "opts": o, "got": got, "expected": want})
+				rep.Violate("c03-tree:empty-statements", fmt.Sprintf("the tree differs from the grammar's in EmptyStmt nodes only: %q: got %s want %s", src, got, want), map[string]interface{}{"src": string(src), "opts": o, "got": got, "expected": want})
+			} else if fixedKey != "" {
+				rep.Violate(fixedKey, fmt.Sprintf("wrong tree for %q: got %s want %s", src, got, want), map[string]interface{}{"src": string(src), "opts": o, "got": got, "expected": want})
 			} else {
 				rep.Violate("c03-tree:"+string(src), fmt.Sprintf("wrong tree for %q: got %s want %s", src, got, want), map[string]interface{}{"src": string(src), "opts": o, "got": got, "expected": want})
 			}
@@ -504,12 +566,27 @@ func c03Fixed(rep *Report) {
 	for o := 0; o < 4; o++ {
 		c03AcceptCheck(rep, []byte("++a**b"), o, "Stmt((++a)**b)", true, "fixed", true)
 		c03AcceptCheck(rep, []byte("a\n;b"), o, "Stmt(a) Stmt(b)", false, "fixed", true)
+		c03AcceptCheck(rep, []byte("{};a"), o, "Stmt({ }) Stmt() Stmt(a)", false, "fixed", true)
+		// `async` followed by a line break is not the async modifier: a method / field named async
+		c03AcceptCheckKey(rep, "c03-tree:class-async-newline", []byte("class A{static async\n(a){}}"), o, "Decl(class A Method(static async Params(Binding(a)) Stmt({ })))", false, "fixed", true)
+		c03AcceptCheckKey(rep, "c03-tree:class-async-newline", []byte("class A{async\nm(){}}"), o, "Decl(class A Field(async) Method(m Params() Stmt({ })))", false, "fixed", true)
+		// Initializer[+In] / ComputedPropertyName[+In] inside a binding pattern, also in the head of a for statement
+		c03AcceptCheckKey(rep, "c03-accept:in-inside-for-binding-pattern", []byte("for(var[a=b in c]of d);"), o, "Stmt(for Decl(var Binding([ Binding(a = (b in c)) ])) of d Stmt({ }))", false, "fixed", true)
+		c03AcceptCheckKey(rep, "c03-accept:in-inside-for-binding-pattern", []byte("for(let{[a in b]:c}=d;;);"), o, "Stmt(for Decl(let Binding({ [a in b]: Binding(c) } = d)) ; ; Stmt({ }))", false, "fixed", true)
+		// a string property name that is not a canonical number is not that number
+		c03AcceptCheckKey(rep, "c03-tree:string-property-name-as-number", []byte("x={'1.0':1}"), o, "Stmt(x={'1.0': 1})", false, "fixed", true)
+		c03AcceptCheckKey(rep, "c03-tree:string-property-name-as-number", []byte("x={'.5':1}"), o, "Stmt(x={'.5': 1})", false, "fixed", true)
+		c03AcceptCheck(rep, []byte("x={'s':1,'12':2,'a b':3}"), o, "Stmt(x={s: 1, 12: 2, 'a b': 3})", false, "fixed", true)
 		c03AcceptCheck(rep, []byte("a+b*c"), o, "Stmt(a+(b*c))", false, "fixed", true)
 		c03AcceptCheck(rep, []byte("a<<b+c"), o, "Stmt(a<<(b+c))", false, "fixed", true)
 		c03AcceptCheck(rep, []byte("(a??b)||c"), o, "Stmt(((a??b))||c)", false, "fixed", true)
 		c03AcceptCheck(rep, []byte("(-a)**b"), o, "Stmt(((-a))**b)", false, "fixed", true)
 	}
-	for _, s := range []string{"(a,)", "-a**b", "a??b||c", "a||b??c", "a&&b??c", "a??b&&c", "a+b=c", "(a", "a)", "a[b", "a]", "f(a", "{a"} {
+	rejectCheckFixed := func(kind, s string) { c03RejectCheck(rep, kind, []byte(s)) }
+	rejectCheckFixed("var-then-let-in-block", "{var a;let a}")
+	rejectCheckFixed("var-then-let-in-block", "{function a(){}let a}")
+	rejectCheckFixed("private-name-twice", "class A{#a;#a}")
+	for _, s := range []string{"let a;let a", "let a;{var a}", "function f(a){let a}", "(a,)", "-a**b", "a??b||c", "a||b??c", "a&&b??c", "a??b&&c", "a+b=c", "(a", "a)", "a[b", "a]", "f(a", "{a"} {
 		kind := "fixed"
 		if s == "(a,)" {
 			kind = "paren-trailing-comma"
@@ -550,6 +627,18 @@ func c03FirstLine(err error) string {
 	return s
 }
 
+// c03SpellNoASI: varied spelling that never puts a line break before ++ / -- (a line break there would end
+// the statement by automatic semicolon insertion and could turn an ill-formed expression into two valid statements)
+func c03SpellNoASI(r *Rng, ts []c03Jtok) []byte {
+	nolt := make([]bool, len(ts))
+	for i, t := range ts {
+		if t.ty == js.IncrToken || t.ty == js.DecrToken {
+			nolt[i] = true
+		}
+	}
+	return c03SpellVaried(r, ts, nolt)
+}
+
 // c03RejectCheck: src is ill-formed (kind says why) and must be rejected under every Options value.
 func c03RejectCheck(rep *Report, kind string, src []byte) {
 	for o := 0; o < 4; o++ {
@@ -558,8 +647,8 @@ func c03RejectCheck(rep *Report, kind string, src []byte) {
 			rep.Violate("c03-panic:"+string(src), fmt.Sprintf("js.Parse panics on %q: %v", src, pan), map[string]interface{}{"src": string(src), "opts": o})
 		} else if err == nil {
 			key := "c03-reject:" + kind + ":" + string(src)
-			if kind == "paren-trailing-comma" {
-				key = "c03-reject:paren-trailing-comma" // one stable key: every instance is the same defect
+			if kind == "paren-trailing-comma" || kind == "private-name-twice" || kind == "var-then-let-in-block" {
+				key = "c03-reject:" + kind // one stable key: every instance is the same defect
 			}
 			rep.Violate(key, fmt.Sprintf("ill-formed program accepted (%s): %q parsed as %s", kind, src, c03AstString(ast)), map[string]interface{}{"src": string(src), "opts": o})
 		}
@@ -579,27 +668,27 @@ func c03Forbidden(r *Rng, tier string, rep *Report) {
 	for i := 0; i < n; i++ {
 		// unary operator applied to the base of ** without parentheses
 		u := c03UnaryOps[r.Intn(len(c03UnaryOps))]
-		reject("unary-exp", c03SpellVaried(r, c03Cat(u, operand(c03NtUpdate), js.ExpToken, operand(c03NtExponent)), nil))
+		reject("unary-exp", c03SpellNoASI(r, c03Cat(u, operand(c03NtUpdate), js.ExpToken, operand(c03NtExponent))))
 		// ?? mixed with || or && without parentheses
 		lo := []js.TokenType{js.OrToken, js.AndToken}[r.Intn(2)]
-		reject("mixed-coalesce", c03SpellVaried(r, c03Cat(operand(c03NtBitOR), js.NullishToken, operand(c03NtBitOR), lo, operand(c03NtBitOR)), nil))
-		reject("mixed-coalesce", c03SpellVaried(r, c03Cat(operand(c03NtBitOR), lo, operand(c03NtBitOR), js.NullishToken, operand(c03NtBitOR)), nil))
+		reject("mixed-coalesce", c03SpellNoASI(r, c03Cat(operand(c03NtBitOR), js.NullishToken, operand(c03NtBitOR), lo, operand(c03NtBitOR))))
+		reject("mixed-coalesce", c03SpellNoASI(r, c03Cat(operand(c03NtBitOR), lo, operand(c03NtBitOR), js.NullishToken, operand(c03NtBitOR))))
 		// assignment to a binary / unary / conditional expression
 		bo := c03BinaryOps[r.Intn(len(c03BinaryOps))]
 		ao := c03AssignOps[r.Intn(len(c03AssignOps))]
-		reject("assign-to-binary", c03SpellVaried(r, c03Cat(operand(c03NtUnary), bo, operand(c03NtUnary), ao, operand(c03NtAssignment)), nil))
-		reject("assign-to-unary", c03SpellVaried(r, c03Cat(u, operand(c03NtUnary), ao, operand(c03NtAssignment)), nil))
+		reject("assign-to-binary", c03SpellNoASI(r, c03Cat(operand(c03NtUnary), bo, operand(c03NtUnary), ao, operand(c03NtAssignment))))
+		reject("assign-to-unary", c03SpellNoASI(r, c03Cat(u, operand(c03NtUnary), ao, operand(c03NtAssignment))))
 	}
 	// `( Expression , )` is not a ParenthesizedExpression (a trailing comma is only allowed in arrow parameters)
 	for i := 0; i < 20; i++ {
 		inner := c03Cat(c03TkLP, operand(c03NtAssignment), c03TkComma, c03TkRP)
 		switch i % 3 {
 		case 0:
-			reject("paren-trailing-comma", c03SpellVaried(r, inner, nil))
+			reject("paren-trailing-comma", c03SpellNoASI(r, inner))
 		case 1:
-			reject("paren-trailing-comma", c03SpellVaried(r, c03Cat(c03TkA, js.EqToken, inner), nil))
+			reject("paren-trailing-comma", c03SpellNoASI(r, c03Cat(c03TkA, js.EqToken, inner)))
 		default:
-			reject("paren-trailing-comma", c03SpellVaried(r, c03Cat(inner, js.AddToken, c03TkB), nil))
+			reject("paren-trailing-comma", c03SpellNoASI(r, c03Cat(inner, js.AddToken, c03TkB)))
 		}
 	}
 	// all operators: a+b=c for every binary and every assignment operator
